@@ -97,3 +97,90 @@ pub fn h_set_clone_view<T: Shape, const N: usize>() {
     assert!(smodel(&s).same(&pre), "C15.Set::clone: dropping the clone leaves the original untouched");
     kani::cover!(pre.len > 0 || N == 0, "reached");
 }
+
+pub static mut CC_CLONES: usize = 0;
+pub static mut Z_CLONES: usize = 0;
+pub static mut Z_DROPS: usize = 0;
+
+/// Clone with an observable effect, no destructor (no drop glue), not Copy
+pub struct Cc(pub u8);
+impl Clone for Cc {
+    fn clone(&self) -> Self {
+        unsafe {
+            CC_CLONES += 1;
+        }
+        Cc(self.0)
+    }
+}
+impl PartialEq for Cc {
+    fn eq(&self, o: &Self) -> bool {
+        self.0 == o.0
+    }
+}
+
+/// zero-sized element with observable Clone and Drop; never equal to anything
+pub struct Z;
+impl Clone for Z {
+    fn clone(&self) -> Self {
+        unsafe {
+            Z_CLONES += 1;
+        }
+        Z
+    }
+}
+impl Drop for Z {
+    fn drop(&mut self) {
+        unsafe {
+            Z_DROPS += 1;
+        }
+    }
+}
+impl PartialEq for Z {
+    fn eq(&self, _o: &Self) -> bool {
+        false
+    }
+}
+
+pub fn h_clone_count_nodrop<const N: usize>(len: usize) {
+    let mut m: Map<Cc, Cc, N> = Map::new();
+    let keys: [u8; N] = kani::any();
+    let mut i = 0;
+    while i < N {
+        if i < len {
+            m.pairs[i] = core::mem::MaybeUninit::new((Cc(keys[i]), Cc(keys[i])));
+        }
+        i += 1;
+    }
+    m.len = len;
+    let c = m.clone();
+    assert!(unsafe { CC_CLONES } == 2 * len, "C15.clone: every stored key and value is cloned exactly once (also for types without a destructor)");
+    assert!(c.len() == len, "C15.clone: same number of entries");
+    let mut i = 0;
+    while i < N {
+        if i < len {
+            let p = unsafe { c.pairs[i].assume_init_ref() };
+            assert!(p.0 .0 == keys[i] && p.1 .0 == keys[i], "C15.clone: the clone holds the same entries");
+        }
+        i += 1;
+    }
+    kani::cover!(true, "reached");
+}
+
+pub fn h_clone_count_zst<const N: usize>(len: usize) {
+    let mut s: Map<Z, (), N> = Map::new();
+    let mut i = 0;
+    while i < N {
+        if i < len {
+            s.pairs[i] = core::mem::MaybeUninit::new((Z, ()));
+        }
+        i += 1;
+    }
+    s.len = len;
+    let c = s.clone();
+    assert!(unsafe { Z_CLONES } == len, "C15.clone: zero-sized elements are cloned exactly once each too");
+    assert!(c.len() == len, "C15.clone: same number of entries");
+    drop(c);
+    drop(s);
+    assert!(unsafe { Z_DROPS } == 2 * len, "C02: every element of the original and of the clone is destroyed exactly once");
+    kani::cover!(true, "reached");
+}
